@@ -175,4 +175,61 @@ pub mod facade {
       self.0.frame_vectored(batch)
     }
   }
+
+  // ------------------------------------------------------------------
+  // ReadyPipeQueue
+  // ------------------------------------------------------------------
+  use crate::socket::patterns::ready_pipe_queue::{ReadyPipeQueue, ReadyPipeSender};
+  use std::collections::VecDeque;
+
+  pub struct RpqX<T: Send + 'static>(ReadyPipeQueue<T>);
+  pub struct RpqSenderX<T: Send + 'static>(ReadyPipeSender<T>);
+
+  impl<T: Send + 'static> RpqX<T> {
+    pub fn new(ready_capacity: usize) -> Self {
+      Self(ReadyPipeQueue::new(ready_capacity))
+    }
+    pub fn register_pipe(&self, pipe_id: usize, capacity: usize, drain_delta: usize) -> RpqSenderX<T> {
+      RpqSenderX(self.0.register_pipe(pipe_id, capacity, drain_delta))
+    }
+    pub fn deregister_pipe(&self, pipe_id: usize) {
+      self.0.deregister_pipe(pipe_id)
+    }
+    pub async fn pop(&self) -> Result<(usize, T), ZmqError> {
+      self.0.pop().await
+    }
+    pub fn try_pop(&self) -> Option<(usize, T)> {
+      self.0.try_pop()
+    }
+    pub fn close(&self) {
+      self.0.close()
+    }
+    pub fn ready_len(&self) -> usize {
+      self.0.ready_rx.len()
+    }
+  }
+
+  impl<T: Send + 'static> RpqSenderX<T> {
+    pub async fn send(&self, item: T) -> Result<(), ZmqError> {
+      self.0.send(item).await
+    }
+    /// Ok(()) or the item back (Full / Closed).
+    pub fn try_send(&self, item: T) -> Result<(), T> {
+      self.0.try_send(item).map_err(|e| match e {
+        fibre::TrySendError::Full(i) | fibre::TrySendError::Closed(i) | fibre::TrySendError::Sent(i) => i,
+      })
+    }
+    pub fn try_send_batch(&self, items: &mut VecDeque<T>) -> usize {
+      self.0.try_send_batch(items, |_| 1)
+    }
+    pub fn queued_count(&self) -> usize {
+      self.0.queued_count()
+    }
+    pub fn reserved_count(&self) -> usize {
+      self.0.reserved_count()
+    }
+    pub fn len(&self) -> usize {
+      self.0.len()
+    }
+  }
 }
